@@ -51,7 +51,9 @@ func runScheduled(in input, withCard bool, t *tape.Tape) (o outcome, v *super.Vi
 	}
 	s := sched.New(pick)
 	s.Level = []uint32{0, 1, 4}[t.Draw(3)]
-	s.MaxSteps = 400000
+	// a liveness bound far above what any terminating parse of this text needs
+	// (observed: fewer than 40 steps per input byte at the densest yield level)
+	s.MaxSteps = 20000 + 400*len(in.text)
 	s.Add(func() { o = doParse(in, nil, nil, withCard) })
 	var wg sync.WaitGroup
 	s.Run(func(body func()) {
